@@ -267,6 +267,63 @@ def _body(rec, ci, cs):
     return True
 
 
+# ---------------------------------------------------------------------------------------------------------------------
+# nested templates with rule modifiers: every instance must mean what the hand-written rule means, whatever the sibling instances are
+TPL_MODS = ['', '!', '?']
+TPL_ARGS = ['"b"', 'B', '_B', 'r']
+TPL_DEFS = {'"b"': '', 'B': 'B: "b"\n', '_B': '_B: "b"\n', 'r': 'r: "b"\n'}
+
+
+def tpl_grammars(mo, mi, arg, order, shape_):
+    a = TPL_ARGS[arg]
+    body_t = ['inner{t} t', 't inner{t}'][order]
+    body_h = ['inner %s' % a, '%s inner' % a][order]
+    if shape_ == 1:
+        # the argument is also handed to a second, unmodified instance
+        body_t += ' plain{t}'
+        body_h += ' plain'
+    templ = 'start: outer{%s}+\n%souter{t}: %s\n%sinner{t}: t\nplain{t}: t "c"?\n%s' % (a, TPL_MODS[mo], body_t, TPL_MODS[mi], TPL_DEFS[a])
+    hand = 'start: outer+\n%souter: %s\n%sinner: %s\nplain: %s "c"?\n%s' % (TPL_MODS[mo], body_h, TPL_MODS[mi], a, a, TPL_DEFS[a])
+    return templ, hand
+
+
+def _tpl_body(rec, mo, mi, arg, order, shape_, kat):
+    mo = hs.sel(mo, 3)
+    mi = hs.sel(mi, 3)
+    arg = hs.sel(arg, len(TPL_ARGS))
+    order = hs.sel(order, 2)
+    shape_ = hs.sel(shape_, 2)
+    kat = bool(kat)
+    with hs.untraced():
+        templ, hand = tpl_grammars(mo, mi, arg, order, shape_)
+        rec['key'] = [mo, mi, arg, order, shape_, kat]
+        rec['nontrivial'] = True
+        n_in = 0
+        for parser in ('lalr', 'earley'):
+            lt = Lark(templ, parser=parser, keep_all_tokens=kat)
+            lh = Lark(hand, parser=parser, keep_all_tokens=kat)
+            for text in ('', 'b', 'bb', 'bbb', 'bbbb', 'bbc', 'bbbc', 'bbbbbb', 'bbbcbbb'):
+                n_in += 1
+                out = []
+                for lk in (lt, lh):
+                    try:
+                        out.append(('tree', _norm(lk.parse(text))))
+                    except UnexpectedInput as e:
+                        out.append(('error', e.pos_in_stream))
+                if out[0] != out[1]:
+                    return hs.fail(rec, 'template instantiation differs from the hand-written rules', parser=parser, text=text, keep_all_tokens=kat,
+                                   templated=repr(out[0])[:300], by_hand=repr(out[1])[:300], grammar=templ, hand=hand)
+        rec['count'] = {'programs': 1, 'inputs': n_in}
+    return True
+
+
+def tpl(mo: int, mi: int, arg: int, order: int, shape_: int, kat: bool) -> bool:
+    """
+    post: _
+    """
+    return hs.run_path(_tpl_body, (mo, mi, arg, order, shape_, kat), corner=lambda mo, mi, arg, order, shape_, kat: hs.sel(mo, 3) == 2 and hs.sel(mi, 3) == 2 and kat)
+
+
 def check(ci: int, cs: List[int]) -> bool:
     """
     pre: len(cs) <= L and (PINC is None or ci % 8 == PINC)
@@ -293,6 +350,8 @@ def plan(tier, seed):
             slices.append({'id': '%s:pair-mode%d:L1' % (parser, pm), 'mode': 'realised', 'params': {'L': 1, 'cfg': None, 'parser': parser, 'pairmode': pm},
                            'timeout': 600 if quick else 3000, 'twin': False,
                            'bound': {'programs': 128, 'statements': 1, 'terminal_dependency': ['imported', '%extend', '%override'][pm]}})
+    slices.append({'id': 'tpl:nested-modifiers', 'func': 'tpl', 'mode': 'realised', 'params': {'L': 0, 'kind': 'tpl'}, 'timeout': 600, 'twin': True,
+                   'bound': {'programs': 3 * 3 * len(TPL_ARGS) * 2 * 2 * 2, 'inputs': 9, 'parsers': 2}})
     meta = {
         'rule': 'one path per (module-set choice vector, lexeme sequence); non-trivial = accepted input',
         'technique': 'CrossHair solver-closed enumeration (realised) of module-set programs and inputs; a textual inliner implementing the documented renaming rule is the reference',
